@@ -174,8 +174,14 @@ def run_lie(ctx, ltype, L, batch, dim_first, fn, order, inplace, dtype):
            "shape": list(X.shape), "kind": "lie", "ltype": ltype, "dtype": str(dtype)}
     orig = X.clone()
     try:
-        out = getattr(X, cfg["fn"])(dim, left=(order == "left")) if ctx.rng.random() < 0.5 else \
-            getattr(pp, cfg["fn"])(X, dim, left=(order == "left"))
+        method = ctx.rng.random() < 0.5
+        cfg["form"] = "method" if method else "function"
+        if fn == "cumops":       # the user-defined-operation entry points on LieTensors
+            ops = (lambda a, b: b @ a) if order == "left" else (lambda a, b: a @ b)
+            out = getattr(X, cfg["fn"])(dim, ops) if method else getattr(pp, cfg["fn"])(X, dim, ops)
+        else:
+            out = getattr(X, cfg["fn"])(dim, left=(order == "left")) if method else \
+                getattr(pp, cfg["fn"])(X, dim, left=(order == "left"))
     except Exception as ex:
         return {"cfg": cfg, "ev": [{"act": "raise", "msg": repr(ex)[:200]}]}
     # sequential fold with the library's own product, item by item
@@ -255,10 +261,12 @@ def gen_traces(ctx):
     for ltype in ("SO3", "SE3", "RxSO3", "Sim3"):
         for dtype in (torch.float64, torch.float32):
             for L in ([1, 2, 3, 5, 6, 7, 8, 9, 12, 17] if q else list(range(1, 41)) + [63, 64, 65, 100]):
-                for fn in ("cumprod", "cummul"):
+                for fn in ("cumprod", "cummul", "cumops"):
                     for order in ("left", "right"):
                         jobs.append(("lie", ltype, L, rng.randint(1, 3), rng.random() < 0.5, fn, order,
                                      rng.random() < 0.5, dtype))
+                        if fn == "cumops":      # both forms (method / function), out-of-place: the input must stay untouched
+                            jobs.append(("lie", ltype, L, rng.randint(1, 3), rng.random() < 0.5, fn, order, False, dtype))
     rng.shuffle(jobs)
     # a few long scans right at the start, before any medium-sized one (history dependence across calls)
     early = [("interval", (rng.randint(2100, 4096),), 0) + rng.choice(fns) + (False,) for _ in range(3)]
